@@ -7,7 +7,6 @@ package main
 // /verif/specs/*.spec for functions outside /repo (assumed contracts).
 
 import (
-	"sync"
 	"fmt"
 	"math/big"
 	"os"
@@ -15,6 +14,7 @@ import (
 	"regexp"
 	"sort"
 	"strings"
+	"sync"
 )
 
 // ---------- AST ----------
@@ -598,9 +598,9 @@ type Contract struct {
 
 // GhostSet: `ghost-set g[idx] = val when cond` (ghost code run at every return of the function)
 type GhostSet struct {
-	Var           string
+	Var            string
 	Idx, Val, Cond Expr
-	Src           string
+	Src            string
 }
 
 type SpecFunc struct {
@@ -637,15 +637,15 @@ type Axiom struct {
 type ContractSet struct {
 	axMu     sync.Mutex
 	axGhosts map[*Axiom][]string
-	Funcs   map[string]*Contract
-	Specs   map[string]*SpecFunc
-	GFuncs  map[string]*GhostFunc
-	GVars   map[string]*GhostVar
-	Lemmas  []*Lemma
-	Axioms  []*Axiom
-	Signals map[string]bool // "pkg.Type.field" channels used as close-only signals
+	Funcs    map[string]*Contract
+	Specs    map[string]*SpecFunc
+	GFuncs   map[string]*GhostFunc
+	GVars    map[string]*GhostVar
+	Lemmas   []*Lemma
+	Axioms   []*Axiom
+	Signals  map[string]bool    // "pkg.Type.field" channels used as close-only signals
 	ChanInvs map[string]*Clause // "pkg.Type.field" -> invariant over `v` of every value sent on that channel
-	Order   []string
+	Order    []string
 }
 
 func NewContractSet() *ContractSet {
